@@ -199,6 +199,7 @@ func TestC14Concurrent(t *testing.T) {
 		var excluded int
 		cfg := c14Cfg(&excluded)
 		failg := func(v *drv.Violation) {
+			drv.SetFailing()
 			log := g.Log
 			g.Cleanup()
 			failCase(rt, replayDoc{Property: "C14", Kind: "history", Ops: log}, v)
